@@ -43,6 +43,15 @@ def reading_conds(fa) -> Set:
     return out
 
 
+def canon_carried(conds: Set) -> Set:
+    """loop-carried variables are named after the local that carries them; compare up to that spelling"""
+    names = sorted({a[1] for c in conds if isinstance(c, tuple) and c[0] == "cmp" for a in poly.all_atoms(c[2]) if a[0] == "carried"})
+    if not names:
+        return conds
+    mp = {("carried", n): Frac.atom(("carried", f"c{i}")) for i, n in enumerate(names)}
+    return {(c[0], c[1], poly.subst(c[2], mp)) + tuple(c[3:]) if isinstance(c, tuple) and c[0] == "cmp" else c for c in conds}
+
+
 def _show(conds) -> str:
     return "; ".join(sorted(show_cond(c) for c in conds))[:300]
 
@@ -75,8 +84,8 @@ def check_movement(res: Result, repo):
     expected["above"] = {mk_cmp(">", rd(ind, RAW), rd("<indicator_two>", RAW))}
     for name, want in expected.items():
         fa = fa_of(name)
-        got = {c for c in reading_conds(fa)}
-        want = {c for c in want if isinstance(c, tuple)}
+        got = canon_carried({c for c in reading_conds(fa)})
+        want = canon_carried({c for c in want if isinstance(c, tuple)})
         if got == want:
             res.ok(rule, {"function": name, "comparisons": _show(got)}, nontrivial=name)
         else:
